@@ -129,15 +129,10 @@ def run(ctx) -> None:
     # "always including the config file's own current_version line" - format independent
     from checks.c03 import self_pattern_rule
     self_pattern_rule(ctx, "R2")
-    # INI values are taken verbatim, like TOML strings: no %-interpolation
+    # INI values are taken verbatim, like TOML strings: no %-interpolation, no inline-comment stripping
     cpk = prog.klass("config._ConfigParser")
-    used = [x for x in ast.walk(readers["cfg"].node) if isinstance(x, ast.Call) and unparse(x.func) in ("_ConfigParser", "configparser.RawConfigParser", "configparser.ConfigParser")]
-    ctx.require(len(used) == 1, "_parse_cfg: parser construction not found")
-    raw = (unparse(used[0].func) == "_ConfigParser" and any(b.endswith("RawConfigParser") for b in cpk.bases)) or unparse(used[0].func).endswith("RawConfigParser")
-    nointerp = any(kw.arg == "interpolation" and isinstance(kw.value, ast.Constant) and kw.value.value is None for kw in used[0].keywords)
-    ctx.check("R2", raw or nointerp, "INI reader does no %-interpolation (RawConfigParser): values mean what the same TOML string means",
-              "config._ConfigParser interpolates '%' in setup.cfg values (the same text means something else than in TOML, or fails to load)",
-              f"bases {cpk.bases}", loc="src/bumpver/config.py", witness={"value": "my%20project {version}"})
+    from checks.c07 import ini_verbatim_rule
+    ini_verbatim_rule(ctx, "R2")
     opt = cpk.methods.get("optionxform")
     okx = opt is not None and any(isinstance(r, ast.Return) and unparse(r.value) == opt.params[1] for r in ast.walk(opt.node))
     ctx.check("R2", okx, "INI reader keeps option names (file names) case-sensitive, as TOML keys are", "config._ConfigParser.optionxform changes file-name keys", "", loc="src/bumpver/config.py")
